@@ -202,6 +202,29 @@ def run_case(ctx, i, rng):
       if has_aux:
         ctx.check(close(out['aux'], aux_r), 'vjp:aux', lambda: dict(case=desc))
       _check_published_once(ctx, desc, V, upd, inner)
+      # the lifted vjp is a JAX function of (variables, inputs) like jax.vjp of apply: differentiate the WHOLE program (primal
+      # + input cotangents) w.r.t. every float collection of the sub-module, selected or not, and compare with the reference
+      if not has_aux and i % 2 == 0:
+        cols0 = {c: sub[c] for c in ('params', 'batch_stats')}
+
+        def host_scalar(cols):
+          VV = dict(V)
+          for c in cols:
+            VV[c] = dict(V[c], core=cols[c])
+          o, _ = host.apply(VV, primals, ct, mutable=['state'])
+          return jnp.sum(o['y'] * ct) + sum(jnp.sum(g) for g in jax.tree_util.tree_leaves(o['in_grads']))
+
+        def ref_scalar(cols):
+          def f2(vs, *ps):
+            vv = {c: (vs[c] if c in vs else cols.get(c, sub[c])) for c in sub}
+            return make_fn(n_primals, False, False)(lambda xx: core_mod.apply(vv, xx), *ps)
+          yy, bw = jax.vjp(f2, {c: cols[c] for c in diff_cols}, *primals)
+          gg = bw(ct)
+          return jnp.sum(yy * ct) + sum(jnp.sum(g) for g in jax.tree_util.tree_leaves(tuple(gg[1:])))
+
+        g_host = jax.grad(host_scalar)(cols0)
+        g_ref = jax.grad(ref_scalar)(cols0)
+        ctx.check(close(g_host, g_ref, dict(rtol=1e-3, atol=1e-4)), 'vjp:not_differentiable_like_jax_vjp', lambda: dict(case=desc))
     elif kind in ('grad', 'value_and_grad'):
       out, upd = host.apply(V, primals, None, mutable=['state'])
       ctx.op('nn.' + kind)
